@@ -70,6 +70,8 @@ def main():
     finally:
         sh(["git", "apply", "-R", patch], cwd=wt)
         sh(["git", "checkout", "--", "."], cwd=wt)
+    # the check regenerated the fact tables from the changed tree: put back the ones of /repo
+    sh([os.path.join(VERIF, ".work", "extract"), "-repo", "/repo", "-out", os.path.join(VERIF, "lean", "YtkModel", "Generated")])
     rc, o = sh(["go", "run", "."], cwd=demo, timeout=600)
     res["demo_passes_without"] = rc == 0 and "FAIL" not in o
     res["confirmed"] = bool(res.get("builds") and res.get("suite_at_baseline") and res.get("demo_fails_with_change")
